@@ -31,7 +31,7 @@ TempCases ==
        <<u, v, x>> \in {t \in Temp \X Temp \X TempPoints :
                            RIsInt(Hundredths(TempConv(t[1], t[2], R(t[3]))))}}
 
-ElementCases == {[z |-> z, sym |-> Symbols[z]] : z \in Elements}
+ElementCases == {[z |-> z, syms |-> SymbolsOf(z)] : z \in Elements}
 TypeCases == {[u |-> u, type |-> TypeOf(u), si |-> SIUnit(TypeOf(u))] : u \in AllUnits}
 
 ASSUME JsonSerialize(IOEnv.OUT_FILE,
